@@ -674,7 +674,7 @@ pub fn run(ctx: &Ctx, rep: &mut Report) {
     rep.prop(
         "scenarios",
         "proptest (model-based, shrinks as one value): world script = start volume (999/998/997/1/2/500/random) x populated run 1..12 or 100..990 x start sequence (50..55 boosted) x per-chunk entries {delay 0/1/2 attempts or never, 0..2 transient 500s, 1..3 chunks already listed at a volume switch} x consumer {run to the missing chunk, stop after k in 0..12, drop receiver after k} x stats channel x Last-Modified header present/absent; oracle = history invariants against the script; non-trivial = >= 3 deliveries available and (>= 1 volume switch or >= 1 delayed/faulted chunk)",
-        ctx.tier.pick(400, 30_000),
+        ctx.tier.pick(1_000, 30_000),
         script_strategy,
         classify,
         check_script,
